@@ -522,4 +522,4 @@ def drained(chk, crate, ctx):
                         "coroutine is dropped while suspended at the yield of that item, its `src.inner = None` never runs, "
                         "and the failed connection is reused by the next call" % how,
                         "stream polled again before any return", f.sp(sw))
-    chk.floor("C09-e item error edges", n_edges, 9)
+    chk.floor("C09-e item error edges", n_edges, 6)
